@@ -161,6 +161,11 @@ EXPORT char *_gets_s_chk(char *restrict dest, rsize_t dmax,
             ret = NULL;
             goto nospc;
         }
+#ifdef SAFECLIB_STR_NULL_SLACK
+        /* null the slack behind the line */
+        len = (rsize_t)strnlen(dest, dmax);
+        memset(&dest[len], 0, dmax - len);
+#endif
     } else {
         if (!feof(stdin) && errno == 0) { /* closed? */
         nospc:
